@@ -20,6 +20,8 @@ TRUSTED = [
     "term extraction = executing the real generic palette code at the term-building types of /verif/sym (primitive semantics: + - * / neg min max abs floor ceil, mul_add = a*b+c, recip = 1/x, powi unrolled, is_valid_divisor = (x != 0))",
     "SMT solvers z3 4.8.12 / z3 5.1 / cvc5 1.0 on `unsat` (portfolio: unsat from any solver discharges)",
     "ground axiom instances for sqrt, cbrt, pow, exp, ln, sin, cos, atan2, hypot (true facts about the real functions; listed per obligation in the SMT files under .build/smt)",
+    "solver-free term equality modulo associativity/commutativity of + and *, placement of negations (also through cbrt, sin, cos, abs), a/(b*c) = a/b/c, hypot(a,b) = sqrt(a*a+b*b) and a < b <=> 0 < b - a (sym/src/term.rs::canon): every rewrite is an identity of real arithmetic, constants are never combined",
+    "the cfg(palette_verif) hook of /repo (MANIFEST.hooks): accessors that copy the private CAM16 viewing-condition quantities and call the real Adapt::run; they add no arithmetic of their own",
 ]
 M1 = ("M1: machine arithmetic is treated as real arithmetic - no rounding, NaN, infinities, subnormals, signed zero; "
       "decimal constants are read as the simplest rational within 4 ulp of their f64 value (0.04045 is 809/20000, 1.0/1.055 is 200/211), "
